@@ -87,6 +87,9 @@ type scen struct {
 	ExtraLen int    // length of their names
 	Owner    []oModSpec
 	Device   []dModSpec
+	// Persist: the owner's module state machine keeps no module object between messages; it serialises the current
+	// module's state (ModulePersister) and rebuilds the module from it for every message
+	Persist bool
 }
 
 func (s scen) String() string {
@@ -128,6 +131,40 @@ type oMod struct {
 	queue      []pend
 	loaded     bool
 	done       bool
+}
+
+// oModState is everything an oMod knows between two calls (Snapshot/Restore for the persisting state machine).
+type oModState struct {
+	SentActive, Inactive, Loaded, Done bool
+	Idle, Round                        int
+	Queue                              []struct {
+		Name string
+		Body []byte
+	}
+}
+
+func (m *oMod) Snapshot() []byte {
+	st := oModState{SentActive: m.sentActive, Inactive: m.inactive, Loaded: m.loaded, Done: m.done, Idle: m.idle, Round: m.round}
+	for _, q := range m.queue {
+		st.Queue = append(st.Queue, struct {
+			Name string
+			Body []byte
+		}{q.name, q.body})
+	}
+	b, _ := json.Marshal(st)
+	return b
+}
+
+func (m *oMod) Restore(b []byte) {
+	var st oModState
+	if json.Unmarshal(b, &st) != nil {
+		return
+	}
+	m.sentActive, m.inactive, m.loaded, m.done, m.idle, m.round = st.SentActive, st.Inactive, st.Loaded, st.Done, st.Idle, st.Round
+	m.queue = nil
+	for _, q := range st.Queue {
+		m.queue = append(m.queue, pend{q.Name, q.Body})
+	}
 }
 
 func (m *oMod) HandleInfo(ctx context.Context, name string, body io.Reader) error {
@@ -314,6 +351,11 @@ func (wd *world) run(s scen) outcome {
 			l = append(l, lab.NamedModule{Name: o.Name, Mod: &oMod{spec: o, rec: rec}})
 		}
 		return l
+	}
+	if s.Persist {
+		w.Owner.TO2.Modules = w.Owner.Mem.PersistingModules()
+	} else {
+		w.Owner.TO2.Modules = w.Owner.Mem.Modules()
 	}
 	if s.SendMTU != 0 {
 		mtu := s.SendMTU
@@ -735,6 +777,14 @@ func scenarios(thorough bool) []scen {
 	for _, p := range pairs {
 		for v := 0; v <= 11; v++ {
 			add(two(p, v))
+		}
+	}
+	// the same structures with a persisting module state machine on the owner side
+	for _, p := range pairs[:2] {
+		for v := 0; v <= 11; v++ {
+			s := two(p, v)
+			s.Persist, s.Label = true, s.Label+"-persisted"
+			add(s)
 		}
 	}
 	return out
